@@ -64,3 +64,26 @@ int sz_replace (int a, int b, int r) {
   return stringp (x) ? strlen (x) : -1;
 }
 int sz_sprintf (int a, int b) { string x = str (a, "x"), y = str (b, "y"); return strlen (sprintf ("%s%s", x, y)); }
+
+// the budget as LPC code can set it: set_eval_limit (n) stores (int) n as MaxEvaluationCost (n other than 0, 1, -1)
+int set_limit (int n) { set_eval_limit (n); return set_eval_limit (1); }
+
+// copies and parts of operands
+mixed *iota (int n) { mixed *a = allocate (n); int i, m = sizeof (a); for (i = 0; i < m; i++) a[i] = i; return a; }
+int keep_lt (int v, int kept) { return v < kept; }
+int g_groups = 0;
+int group_of (int v) { return (g_groups > 0 ? v % g_groups : v) + 1; }   // (a result equal to the skip value 0 drops the element)
+int ident (int v) { return v; }
+int sz_copy_array (int n) { return sizeof (copy (allocate (n))); }
+int sz_copy_mapping (int n) { return sizeof (copy (mk (0, n))); }
+int sz_sort_array (int n) { return sizeof (sort_array (iota (n), -1)); }
+int sz_map_array (int n) { return sizeof (map_array (iota (n), "ident", this_object ())); }
+int sz_lower_case (int n) { return strlen (lower_case (str (n, "X"))); }
+int sz_filter_array (int n, int kept) { return sizeof (filter_array (iota (n), "keep_lt", this_object (), kept)); }
+int sz_unique_array (int n, int groups) { g_groups = groups; return sizeof (unique_array (iota (n), (: group_of :))); }
+int sz_array_sub (int n, int k) { return sizeof (iota (n) - iota (k)); }
+int sz_array_and (int n, int k) { return sizeof (iota (n) & iota (k)); }
+int sz_keys (int n) { return sizeof (keys (mk (0, n))); }
+int sz_values (int n) { return sizeof (values (mk (0, n))); }
+int sz_allocate_mapping (int n) { return sizeof (allocate_mapping (n)); }
+int sz_sprintf_pad (int w, int n) { return strlen (sprintf ("%*s", w, str (n, "x"))); }
